@@ -7,11 +7,12 @@
 (*        derived by the ABNF; failures are parse-class errors             *)
 (*   C04  the public AST = Prec!TreeOf(tokens); the parenthesised spelling *)
 (*        has the same AST and the same search results                     *)
+(*   C12  a compile failure is located truthfully ("coords")               *)
 (* Expected(r).why names the clause that failed: "accept", "errclass",     *)
 (* "tree", "paren", "results", "compile" so that the check of each         *)
 (* property reports its own clauses.                                       *)
 (***************************************************************************)
-EXTENDS Grammar, Pratt, Prec, Lexer, Json, IOUtils
+EXTENDS Grammar, Pratt, Prec, Lexer, Errors, Json, IOUtils
 CONSTANT KnownDevs
 VARIABLES chunk, phase
 
@@ -30,12 +31,20 @@ OutKey(o) == IF "ok" \in DOMAIN o THEN [ok |-> o.ok]
              ELSE [crash |-> TRUE]
 SameOuts(a, b) == Len(a) = Len(b) /\ \A i \in DOMAIN a : OutKey(a[i]) = OutKey(b[i]) /\ "crash" \notin DOMAIN OutKey(a[i])
 
+(* C12 for compile failures: the error carries the text, its offset is a character boundary inside 0..len and
+   line / column are the coordinates of that offset *)
+CoordsOk(r) ==
+  LET e == r.parse.err IN
+  /\ e.expr_same /\ e.char_offset >= 0 /\ e.char_offset <= Len(r.text)
+  /\ LET c == Coord(r.text, e.char_offset) IN e.line = c.line /\ e.col = c.col
+
 Why(r) ==
   LET x == L0(r) IN
   IF ~x.dom THEN "none"
   ELSE IF r.parse.errclass = "panic" THEN "accept"
   ELSE IF r.parse.ok # x.acc THEN "accept"
   ELSE IF ~r.parse.ok /\ r.parse.errclass # "parse" THEN "errclass"
+  ELSE IF ~r.parse.ok /\ ~CoordsOk(r) THEN "coords"
   ELSE IF ~r.parse.compile_same THEN "compile"
   ELSE IF x.acc /\ r.parse.ast # TreeOf(x.toks) THEN "tree"
   ELSE IF x.acc /\ "pparse" \in DOMAIN r /\ (~r.pparse.ok \/ r.pparse.ast # r.parse.ast) THEN "paren"
